@@ -3,6 +3,7 @@ package interp
 import (
 	"fmt"
 	"go/types"
+	"runtime/debug"
 	"strings"
 
 	"golang.org/x/tools/go/ssa"
@@ -478,7 +479,12 @@ func (in *Interp) RunMain(fn *ssa.Function) (res interface{}) {
 	in.cur = g
 	defer func() {
 		r := recover()
-		res = r
+		switch r.(type) {
+		case nil, pathAbort, *GoPanic, engineBug, goroutineCrash:
+			res = r
+		default:
+			res = engineBug{fmt.Sprintf("engine crash: %v\n%s%s", r, debug.Stack(), in.where())}
+		}
 		in.teardown()
 	}()
 	in.runFunction(fn, nil, nil)
